@@ -22,19 +22,26 @@ def esc(text):
 
 
 def el(tag, text, ind=""):
+    if text is None:
+        return ""           # a null entry of the dictionary forms has no XML counterpart
     if tag == "#comment":
         return "%s<!--%s-->\n" % (ind, text)
     return "%s<%s>%s</%s>\n" % (ind, tag, esc(text), tag)
 
 
 def xml_value(v, ind):
-    out = "%s<value>%s" % (ind, escape(v["text"]))
+    inner = ""
     for tag, text in v["attrs"]:
-        if tag == "#comment":
-            out += "<!--%s-->" % text
+        if text is None:
             continue
-        out += "<%s>%s</%s>" % (tag, esc(text), tag)
-    return out + "</value>\n"
+        if tag == "#comment":
+            inner += "<!--%s-->" % text
+            continue
+        inner += "<%s>%s</%s>" % (tag, esc(text), tag)
+    if v.get("text_last"):
+        # mixed content the other way round: the value text follows the elements of the value
+        return "%s<value>%s%s</value>\n" % (ind, inner, escape(v["text"]))
+    return "%s<value>%s%s</value>\n" % (ind, escape(v["text"]), inner)
 
 
 def xml_prop(p, ind):
@@ -105,16 +112,25 @@ def _native(text):
     return text
 
 
-def to_dict(doc, native=False):
+def to_dict(doc, native=False, share=False):
+    """share: equal sub-dictionaries (values, Properties, Sections) are one and the same object - what a program
+    that builds the tree from shared parts hands to yaml.dump, which then writes anchors and aliases."""
     nat = _native if native else (lambda t: t)
+    pool = {}
+
+    def shared(d):
+        if not share:
+            return d
+        return pool.setdefault(json.dumps(d, sort_keys=True, default=str), d)
 
     def val(v):
         d = {"value": nat(v["text"])}
         for tag, text in v["attrs"]:
             if tag == "#comment":
                 continue
-            d.setdefault(tag, nat(text) if tag == "uncertainty" else str(text))      # a dictionary holds every key once
-        return d
+            # a dictionary holds every key once
+            d.setdefault(tag, None if text is None else (nat(text) if tag == "uncertainty" else str(text)))
+        return shared(d)
 
     def prop(p):
         d = {}
@@ -130,7 +146,7 @@ def to_dict(doc, native=False):
                 d[tag] = str(text)
         if p.get("order") != "values-first":
             d["values"] = [val(v) for v in p["values"]]
-        return d
+        return shared(d)
 
     def sec(s):
         d = {"name": s["name"], "type": s["type"]}
@@ -142,7 +158,7 @@ def to_dict(doc, native=False):
                 d[tag] = str(text)
         d["properties"] = [prop(p) for p in s["properties"]]
         d["sections"] = [sec(c) for c in s["sections"]]
-        return d
+        return shared(d)
     d = dict(doc["attrs"])
     if native and "version" in d:
         d["version"] = nat(d["version"])        # version: 0.9
@@ -159,8 +175,10 @@ def to_json(doc, native=False):
     return json.dumps(to_dict(doc, native), indent=2)
 
 
-def to_yaml(doc, native=False):
+def to_yaml(doc, native=False, share=False):
     import yaml
+    if share:
+        return yaml.safe_dump(to_dict(doc, share=True), default_flow_style=False, default_style='"', sort_keys=False)
     if native:
         return yaml.safe_dump(to_dict(doc, True), default_flow_style=False, sort_keys=False)
     # every scalar quoted: the text stays text whatever it looks like
@@ -352,6 +370,40 @@ def deviations():
     add("dependencyvalue-spelling", lambda d: _p(d, "p2")["attrs"].update({"dependency": "p1", "dependencyvalue": "1"}))
     add("sec-reference", lambda d: d["sections"][1]["attrs"].update({"reference": "ref"}))
     add("empty-section-list", lambda d: d.__setitem__("sections", []))
+    # repeated content: equal values in one Property, the same Property in two Sections, the same sub-Section below two
+    # Sections (rendered to YAML once more with the equal parts shared, i.e. with anchors and aliases)
+    add("repeat:values", lambda d: _p(d, "p2").__setitem__("values", [V("x", ("unit", "mV")), V("x", ("unit", "mV")), V("y")]))
+
+    def no_ids(node):
+        node["id"] = None
+        for c in node.get("properties", []) + node.get("sections", []):
+            no_ids(c)
+        return node
+
+    def repeat_prop(d):
+        p = copy.deepcopy(_p(d, "p1"))
+        p["id"] = None
+        d["sections"][1]["properties"].append(p)
+        q = copy.deepcopy(p)
+        d["sections"][0]["sections"][0]["properties"].append(q)
+    add("repeat:property-in-three-sections", repeat_prop)
+
+    def repeat_sec(d):
+        c = no_ids(copy.deepcopy(d["sections"][0]["sections"][0]))
+        d["sections"][1]["sections"].append(c)
+    add("repeat:sub-section-below-two-sections", repeat_sec)
+    # null entries (dictionary forms only; the XML rendering has no element for them)
+    add("null:value-unit", lambda d: _p(d, "p2")["values"][0]["attrs"].append(("unit", None)))
+    add("null:value-definition-then-set", lambda d: (_p(d, "p2")["values"][0]["attrs"].append(("definition", None)),
+                                                      _p(d, "p2")["values"][1]["attrs"].append(("definition", "d2"))))
+    add("null:value-uncertainty", lambda d: _p(d, "q")["values"][0]["attrs"].append(("uncertainty", None)))
+    add("null:property-definition", lambda d: _p(d, "p2")["attrs"].update({"definition": None}))
+    add("null:section-definition", lambda d: d["sections"][1]["attrs"].update({"definition": None}))
+    add("null:document-author", lambda d: d["attrs"].update({"author": None}))
+    # the text of a value element after its child elements
+    add("value-text-last:p1", lambda d: _p(d, "p1")["values"][0].__setitem__("text_last", True))
+    add("value-text-last:p2-second", lambda d: (_p(d, "p2")["values"][1]["attrs"].append(("unit", "mV")),
+                                                 _p(d, "p2")["values"][1].__setitem__("text_last", True)))
     return devs
 
 
